@@ -20,17 +20,17 @@ CHECKS = {
  "C05": ("fault injection into clean programs, oracle = expected diagnostic kind at the planted site",
          "15 violation classes are planted one at a time into programs that are clean in the same run; a diagnostic of the expected kind must sit on the offending instruction/operand (label for fall-through; entry or related jump for jump-to-function).",
          "Expected-kind table is part of the design; collateral diagnostics are allowed."),
- "C06": ("crash/hang monitor: child processes with address-space limit, watchdog and sweep-limit hook; rustc overflow-check sanitizer build",
-         "Hostile inputs (random Unicode, token soup over the analyzer's vocabulary, mutated programs, structurally extreme inputs in a scaling series up to 64 KiB) are linted through RVParser::run in worker children in the checked and release builds of the harness, and a sample through `rva lint` in every output mode (dev and release binaries). Panics, deaths by signal (stack overflow, abort), exceeded sweep limits and watchdog expiry are the refuting events; sweep counts of the scaling series are recorded.",
+ "C06": ("crash/hang monitor: child processes with address-space limit, watchdog and sweep-limit hook; rustc overflow-check sanitizer build; thorough tier adds coverage-guided fuzzing (cargo-fuzz/libFuzzer, AddressSanitizer build)",
+         "Hostile inputs (random Unicode, token soup over the analyzer's vocabulary, mutated programs, structurally extreme inputs in a scaling series up to 64 KiB) are linted through RVParser::run in worker children in the checked and release builds of the harness, and a sample through `rva lint` in every output mode (dev and release binaries). Panics, deaths by signal (stack overflow, abort), exceeded sweep limits and watchdog expiry are the refuting events; sweep counts of the scaling series are recorded. The thorough tier then fuzzes RVParser::run with libFuzzer (16 forked jobs, 600 s, seed corpus from the generators); every artifact is re-run alone and counts only if the panic / abort / stack overflow / 60 s timeout reproduces.",
          "Polynomial time is restated as bounded sweep counters plus a recorded scaling series; a finite run cannot establish an asymptotic bound."),
  "C15": ("differential monitor (split vs. pasted) + fault injection at the FileReader seam + on-disk include graphs through the CLI",
-         "Programs are cut into include trees (depth 1-3, sub-directories) and must get the diagnostics of the pasted file, attributed to the right file and file-relative line; the CLI must select base-file items and announce the right count; injected reader faults (not found, IO, internal) must give exactly one error on the directive and leave the rest as with the directive blanked; self-/cyclic includes must terminate with an error for three reader policies in memory and on disk.",
+         "Programs are cut into include trees (depth 1-3, sub-directories, 40 % with one file included two or three times) and must get the diagnostics of the pasted file, attributed to the right file and file-relative line; the CLI must select base-file items and announce the right count; injected reader faults (not found, IO, internal) must give exactly one error on the directive and leave the rest as with the directive blanked; self-/cyclic includes must terminate with an error for three reader policies in memory and on disk.",
          "Cuts are at line boundaries only."),
  "C18": ("differential monitor across output channels (library vs. pretty / compact / JSON, colour, file selection)",
          "For file sets with lints, parse errors and analysis errors, single- and multi-file, the lists (severity, title, file, line, columns) from RVParser::run and from the rva binary in pretty, --compact and --json with/without --no-color and --all-files must be equal per file selection, sorted, JSON of the documented shape, free of escapes under --no-color, with the right other-files count, one severity per kind, and every pretty excerpt must show the right line with the marker under the reported columns.",
          "Only what a format prints is compared."),
  "C19": ("round-trip and injectivity monitor over the serde dump (value space enumerated, graphs sampled)",
-         "Every AvailableValue / MemoryLocation variant with boundary payloads, register sets and maps are dumped (serde_yaml), reloaded and compared, and distinct values must have distinct dumps; whole-graph dumps of generated programs must reload and re-dump identically, fact-different one-instruction mutants must have different dumps; also through `rva lint --yaml`; checked and release builds.",
+         "Every AvailableValue / MemoryLocation variant with boundary payloads, register sets and maps are dumped (serde_yaml), reloaded and compared, and distinct values must have distinct dumps; whole-graph dumps of generated programs must reload and re-dump identically, fact-different one-instruction mutants must have different dumps; a decoder rebuilds every field (edges, liveness, facts, labels, per-node (entry, exit) pairs of its functions) from the dump and compares it with the analysis; also through `rva lint --yaml`; checked and release builds.",
          "Sets emitted as lists are compared as sets."),
  "C07": ("mutation workload + coverage/containment oracle over parser executions",
          "One line of a one-statement-per-line file is replaced by a malformed one (15 defect kinds, first/middle/last/two consecutive lines), plus whole-file CR/LF endings and a final line truncated after each token with/without newline. Every non-blank line must yield a node starting on it or a parse error located on it, and all other lines must parse exactly as when the bad line is blank.",
@@ -42,7 +42,7 @@ CHECKS = {
          "Call targets computed from the harness AST and reachable sets computed by BFS over the observed successor edges are compared with the function map, node lists, owner lists and exits of the finished graph for hand-written shapes (aliases, interleaved bodies, shared tails, fall-through entry, recursion, dead callers, multiple returns, interrupt handlers) and generated programs; sharing must be reported exactly when it exists.",
          "Programs whose analysis fails are excluded (C16)."),
  "C16": ("failure-shape workload + oracle on the reported error (kind, file, range, text) and on default CLI visibility",
-         "Programs that parse but may be impossible to analyse (undefined / duplicate labels, labels without instruction, functions without return, returns outside functions, calls into data, label-only files, the same split into included files) must produce a specific error located on a real label in a user file and visible in the default CLI output, never Unexpected/Assertion errors.",
+         "Programs that parse but may be impossible to analyse (undefined / duplicate labels, labels without instruction, functions without return, returns outside functions, calls into data, label-only files, the same split into included files) must produce a specific error located on a real label in a user file and visible in the default CLI output, never Unexpected/Assertion errors; a reference model of label hygiene (every definition and use in the program text) demands a label error whenever a label is duplicated or undefined.",
          "When several labels are undefined any one may be the location."),
  "C08": ("reference-machine differential monitor + rustc overflow-check sanitizer build",
          "Every mnemonic x operand form is parsed by the real parser and the decoded nodes are executed on the reference machine against the official expansion from boundary and random states; MathOp::operate is compared with a reference ALU on a complete 24x24 boundary grid per operator plus random pairs, in the checked (overflow-checks) and release builds.",
